@@ -672,3 +672,194 @@ def c12(tier, seed, want=("C12", "C13", "C17", "C18")):
                     continue
                 build(role, seq, {"depth": k})
     return out
+
+
+# ----------------------------------------------------------------------------- C16
+
+def c16(tier, seed):
+    rng = random.Random(seed * 7919 + 16)
+    names_static, names_lit, vals = _hdr_classes(rng)
+    out = []
+    n = 0
+    emit_steps = [step("app", "open_uni", tag="u"), step("app", "write", tag="u", len=12, salt=1, then_finish=True),
+                  step("app", "open_bi", tag="b"), step("app", "write", tag="b", len=5, salt=2),
+                  step("app", "send_dgram", len=0, salt=3), step("app", "send_dgram", len=9, salt=4),
+                  step("app", "open_uni", tag="u2"), step("app", "reset", tag="u2", code=v62(77)),
+                  sleep(60)]
+    header_sets = [[]]
+    for nm in names_static + names_lit:
+        header_sets.append([(nm, rng.choice(vals))])
+    for _ in range(12):
+        hs = {}
+        for _ in range(rng.randrange(1, 6)):
+            hs[rng.choice(names_static + names_lit)] = rng.choice(vals)
+        header_sets.append(sorted(hs.items()))
+    urls = ["https://127.0.0.1:{port}/", "https://localhost:{port}/a/b?c=d", "https://a.b-c.example:{port}",
+            "https://localhost:{port}/chat/room1/?x"]
+    if tier == "quick":
+        header_sets = header_sets[:4] + pick(rng, header_sets[4:], 10)
+    # (a) the endpoint is the client: request + SETTINGS + streams + datagrams recorded by a raw server
+    for i, hs in enumerate(header_sets):
+        out.append({"scn": "C16-%04d" % n, "role": "client", "peer": "raw", "url": urls[i % len(urls)],
+                    "headers": [[k, v] for k, v in hs], "meta": {"prop": "C16", "family": "client"},
+                    "steps": list(emit_steps)})
+        n += 1
+    # (b) the endpoint is the server: every decision, with extra response fields
+    decisions = ["accept", "accept_headers", "forbidden", "not_found", "too_many"]
+    for i, hs in enumerate(header_sets):
+        d = decisions[i % 5]
+        extra = [(k, v) for (k, v) in hs if not k.startswith(":")]
+        out.append({"scn": "C16-%04d" % n, "role": "server", "peer": "raw", "decision": d,
+                    "extra": [[k, v] for k, v in extra], "meta": {"prop": "C16", "family": "server", "decision": d},
+                    "steps": list(emit_steps) if d.startswith("accept") else [sleep(80)]})
+        n += 1
+    # (c) error paths that make the endpoint speak (codes must be registered values)
+    for s in c12(tier, seed):
+        names = s["meta"]["names"]
+        if len(names) == 1 and names[0] in ("ctrl_dup", "qenc_fin", "wt_badsid1", "data", "settings2", "oversize",
+                                             "fin", "trunc_fin", "data_first", "get_request", "no_path",
+                                             "bad_qpack_dyn", "wt_foreign4", "settings", "wtframe"):
+            s = dict(s)
+            s["scn"] = "C16-%04d" % n
+            s["meta"] = dict(s["meta"], prop="C16", family="errors")
+            out.append(s)
+            n += 1
+    return out
+
+
+# ----------------------------------------------------------------------------- C05
+
+def _pieces(tag, data, cuts, inject):
+    """write `data` on `tag` cut at positions `cuts`, with `inject` steps between the pieces"""
+    steps = []
+    prev = 0
+    for i, c in enumerate(list(cuts) + [len(data)]):
+        if c > prev:
+            steps.append(step("peer", "write", tag=tag, bytes=data[prev:c]))
+        if i < len(cuts):
+            steps.append(sleep(25))
+            steps += inject(i)
+            steps.append(sleep(25))
+        prev = c
+    return steps
+
+
+def c05(tier, seed):
+    rng = random.Random(seed * 7919 + 5)
+    out = []
+    n = 0
+    live = 0
+    settings = frame(4, SETTINGS_PAYLOAD)
+    grease_c = frame(0x21, b"gg")
+    grease_r = frame(0x21 + 0x1F * 2, b"")
+    request = frame(1, request_headers(authority=b"localhost:4433", path=b"/seg?x=1",
+                                       extra=[(b"origin", b"https://example.org")]))
+    response = frame(1, qpack_section([q_idx(25), q_lit_lit(b"x-extra", b"1")]))
+    grease_s = frame(0x21 + 0x1F * 5, b"session-grease")
+    cap = close_capsule_frame(4242, b"segmented bye")
+
+    def injector(kind, target_on):
+        state = {"n": 0}
+
+        def f(i):
+            state["n"] += 1
+            k = state["n"]
+            if kind == "none":
+                return []
+            if kind == "dgram":
+                return [step("peer", "dgram", bytes=varint(live // 4) + [k, 2, 3])]
+            if kind == "wt_uni":
+                return [step("peer", "open_uni", tag="iu%d" % k),
+                        step("peer", "write", tag="iu%d" % k, bytes=wt_uni_preamble(live) + [k])]
+            if kind == "wt_bi":
+                return [step("peer", "open_bi", tag="ib%d" % k),
+                        step("peer", "write", tag="ib%d" % k, bytes=wt_bi_preamble(live) + [k])]
+            if kind == "qpack":
+                if k == 1:
+                    return [step("peer", "open_uni", tag="qe"), step("peer", "write", tag="qe", bytes=[0x02])]
+                return [step("peer", "write", tag="qe", bytes=[0x20 + k])]
+            if kind == "other_crit":
+                if target_on == "ctrl":
+                    if k == 1:
+                        return [step("peer", "open_uni", tag="qd"), step("peer", "write", tag="qd", bytes=[0x03])]
+                    return [step("peer", "write", tag="qd", bytes=[0x80 + k])]
+                return [step("peer", "write", tag="ctrl", bytes=frame(0x21 + 0x1F * (10 + k), b"i"))]
+            return []
+        return f
+
+    injects = ["none", "dgram", "wt_uni", "wt_bi", "qpack", "other_crit"]
+    for role in ("server", "client"):
+        req_tag = "req" if role == "server" else "in0"
+        hs = (grease_r + request) if role == "server" else (grease_r + response)
+        targets = {
+            "settings": ("ctrl", [0x00] + settings + grease_c, range(1, 1 + len(settings))),
+            "grease_ctrl": ("ctrl", [0x00] + settings + grease_c, range(1 + len(settings) + 1, 1 + len(settings) + len(grease_c))),
+            "grease_hs": (req_tag, hs, range(1, len(grease_r))),
+            "headers": (req_tag, hs, range(len(grease_r) + 1, len(hs))),
+            "grease_session": (req_tag, grease_s, range(1, len(grease_s))),
+            "capsule": (req_tag, cap, range(1, len(cap))),
+        }
+        plan = []
+        for tname, (ttag, data, positions) in targets.items():
+            positions = list(positions)
+            for inj in injects:
+                plan.append((tname, inj, []))          # the unsegmented twin (control)
+                for p in positions:
+                    plan.append((tname, inj, [p]))
+                if len(positions) >= 2:
+                    for _ in range(3):
+                        a, b = sorted(rng.sample(positions, 2))
+                        plan.append((tname, inj, [a, b]))
+        if tier == "quick":
+            keep = [p for p in plan if not p[2] and p[1] == "none"][:6]
+            rest = [p for p in plan if p[2]]
+            # every (target, inject) pair once, at a seeded position
+            seen = {}
+            rng.shuffle(rest)
+            for p in rest:
+                seen.setdefault((p[0], p[1]), p)
+            plan = keep + sorted(seen.values(), key=lambda x: (x[0], x[1]))
+        for (tname, inj, cuts) in plan:
+            ttag = targets[tname][0]
+            injf = injector(inj, "ctrl" if ttag == "ctrl" else "req")
+
+            def part(name, tag, data):
+                if name == tname or (name == "ctrl_all" and tname in ("settings", "grease_ctrl")) or \
+                        (name == "hs_all" and tname in ("grease_hs", "headers")):
+                    return _pieces(tag, data, cuts, injf)
+                return [step("peer", "write", tag=tag, bytes=data)]
+
+            steps = [step("peer", "open_uni", tag="ctrl")]
+            steps += part("ctrl_all", "ctrl", [0x00] + settings + grease_c)
+            if role == "server":
+                steps += [step("peer", "open_bi", tag="req")]
+            else:
+                steps += [step("peer", "wait_handle", tag="in0", ms=3000)]
+            steps += part("hs_all", req_tag, hs)
+            steps += [step("app", "adopt", ms=3000),
+                      step("peer", "open_uni", tag="probe1"),
+                      step("peer", "write", tag="probe1", bytes=wt_uni_preamble(live) + [0x71]),
+                      step("app", "accept_uni", tag="probe1", ms=2500)]
+            steps += part("grease_session", req_tag, grease_s)
+            steps += [sleep(30), step("peer", "open_bi", tag="probe2"),
+                      step("peer", "write", tag="probe2", bytes=wt_bi_preamble(live) + [0x72]),
+                      step("app", "accept_bi", tag="probe2", ms=2500),
+                      step("app", "spawn", op="accept_uni", tag="w1", ms=6000),
+                      step("app", "spawn", op="accept_bi", tag="w2", ms=6000),
+                      step("app", "spawn", op="recv_dgram", tag="w3", ms=6000),
+                      sleep(30)]
+            steps += part("capsule", req_tag, cap)
+            steps += [step("app", "await", tag="w1", ms=7000), step("app", "await", tag="w2", ms=7000),
+                      step("app", "await", tag="w3", ms=7000)]
+            # injected streams / datagrams of the live session may legitimately satisfy a waiter:
+            # keep asking until each kind of operation has reported the termination
+            for r in range(3):
+                steps += [step("app", "accept_uni", tag="l%d" % r, ms=2500),
+                          step("app", "accept_bi", tag="m%d" % r, ms=2500),
+                          step("app", "recv_dgram", tag="d%d" % r, ms=2500)]
+            out.append({"scn": "C05-%04d" % n, "role": role, "peer": "raw", "manual": True, "settle_ms": 100,
+                        "meta": {"prop": "C05", "target": tname, "inject": inj, "cuts": cuts,
+                                 "ctrl_tag": "ctrl", "req_tag": req_tag, "sess_from": len(hs)},
+                        "steps": steps})
+            n += 1
+    return out
